@@ -299,7 +299,17 @@ def auto_impl(case):
         pnames = list(names[3:])
         assert len(slots) == len(pnames), (consts, names)
         defaults = {nm: frac(np.asarray(v).reshape(-1)[0]) for nm, v in zip(pnames, args[3:])}
-        mod = importlib.import_module(fname)
+        # the f2py extension that holds the auto-07p routines: since fix D96 it is called <file_name>_<hash of the source>
+        # (the Fortran module inside keeps the name <file_name>); it is the module the backend has just imported
+        cands = [m for nm, m in sys.modules.items() if (nm == fname or nm.startswith(fname + "_")) and hasattr(m, "func")]
+        if not cands:
+            importlib.invalidate_caches()
+            import glob as _glob
+            names = sorted({os.path.basename(q).split(".")[0] for q in _glob.glob(fname + "*.so")})
+            cands = [importlib.import_module(nm) for nm in names]
+            cands = [m for m in cands if hasattr(m, "func")]
+        assert len(cands) == 1, ("compiled auto-07p module not found", fname, [m.__name__ for m in cands])
+        mod = cands[0]
         nd = len(smap)
         res = []
         for pt in case["points"]:
